@@ -13,6 +13,7 @@ from ..expr import Lin, lin
 from .r19 import _mods
 
 TOP = None
+_nest = [0]
 
 # (source name of the function, start field, free field, what)
 CONTRACTS = [
@@ -156,6 +157,19 @@ def _analyse(prog, f, fstart, ffree):
                 vals[i.id] = Lin(0, {"call#%d" % i.id: 1})
                 if any(strip_casts(f, a) == {"k": "a", "v": 0} for a in i.args) and not (i.callee or "").startswith("llvm.dbg"):
                     g = f.model.functions.get(i.callee) if i.callee else None
+                    if g is not None and not g.decl and _mods(prog, {}, g) and g.name != f.name and _nest[0] < 3:
+                        # a helper that works on the object: its own effect on the length (analysed the same way)
+                        _nest[0] += 1
+                        try:
+                            sub = _analyse(prog, g, fstart, ffree)
+                        finally:
+                            _nest[0] -= 1
+                        kept = sub is not None and sub.len is not None and sub.len == Lin(0, {"F0": 1, "S0": -1})
+                        st.start = Lin(0, {"start@call#%d" % i.id: 1})
+                        st.free = Lin(0, {"free@call#%d" % i.id: 1})
+                        if not kept:
+                            st.len = TOP
+                        continue
                     if g is None or g.decl or _mods(prog, {}, g):
                         raise AnalysisBroken("R18: %s passes its object on to %s, which may change it" % (f.name, i.callee))
                     # a getter: its result in terms of the current fields
@@ -186,7 +200,7 @@ def rule_R18(ctx, rep, config="c-lib", tag=""):
     n = 0
     for (src, fstart, ffree, what) in CONTRACTS:
         fs = [f for f in p.m.defined() if (f.name == src or f.d.get("srcname") == src) and f.module and f.module.startswith(("vlobject.", "objstack."))]
-        fs = [f for f in fs if any((resolve_addr(f, s.ops[1]).last_field() or "").split(".")[-1] == ffree for s in f.all_insts() if s.op == "store")]
+        fs = [f for f in fs if ffree in _mods(p, {}, f) or "*" in _mods(p, {}, f)]
         for f in fs:
             n += 1
             rep.cover(p, [f.name])
